@@ -139,11 +139,12 @@ def run_case(ctx, kind_, rng, idx):
             'net_flux': NF if n <= 7 else 'elided'}
     ctx.describe(desc)
     ctx.seen('graph_kinds', kind + '/' + scheme)
-    src_arg = src if rng.random() < 0.5 else np.array(src)
-    fz = Frozen(NF, src_arg, snk)
+    src_arg = [list, tuple, np.array][idx % 3](src)
+    snk_arg = [np.array, list, tuple][(idx // 3) % 3](snk)
+    fz = Frozen(NF, src_arg, snk_arg)
     ctx.iters = []
     try:
-        ps, fl = path.paths(src_arg, snk, NF, remove_path=scheme,
+        ps, fl = path.paths(src_arg, snk_arg, NF, remove_path=scheme,
                             num_paths=num_paths, flux_cutoff=cutoff)
     except Exception as e:  # noqa
         ctx.crash('paths.raised', e)
